@@ -86,6 +86,32 @@ def independence_failure(lines, exe, workdir, tag):
     return None, il
 
 
+def legacy_histories(ck, exe, dist):
+    """files written by early versions of the library (HDF5 without link-creation-order tracking: the shipped
+    src/tests/data/cgnslib_vers-*.cgns) opened read-only together with files written now: what a file answers must not depend
+    on which other files are open (same oracle: the file's own history alone, in a fresh process)"""
+    import shutil
+    ddir = os.path.join(vlib.REPO, "src", "tests", "data")
+    legacy = sorted(f for f in (os.listdir(ddir) if os.path.isdir(ddir) else []) if f.startswith("cgnslib_vers-") and f.endswith(".cgns"))
+    dist["legacy_files"] = legacy
+    for k, name in enumerate(legacy):
+        lines = ["file 1 LEG.cgns hdf5 r", "nchild 1 0", "names 1 0 1 6",
+                 "file 2 NEW.cgns %s w" % ("hdf5" if k % 2 == 0 else "adf"), "create 2 0 1 41", "nchild 2 0",
+                 "nchild 1 0", "names 1 0 1 6",
+                 "file 3 NEW3.cgns hdf5 w", "create 3 0 1 42", "nchild 1 0", "names 1 0 1 6",
+                 "closef 2", "nchild 1 0", "closef 3", "nchild 1 0", "names 1 0 1 6", "closef 1"]
+        tag = "leg%d" % k
+        for t in (tag, tag + "a1"):
+            shutil.copy(os.path.join(ddir, name), os.path.join(ck.work, "%s_LEG.cgns" % t))
+        ck.cov["traces_validated_against_impl"] += 1
+        ck.case(hashlib.sha1(("legacy" + name).encode()).hexdigest(), sample={"legacy_file": name, "ops": lines[:8] + ["..."]})
+        f, il = independence_failure(lines, exe, ck.work, tag)
+        if f:
+            ck.violation({"legacy_file": "src/tests/data/" + name, "script": lines, "failure": f,
+                          "oracle": "same file history run alone in a fresh process"})
+            return
+
+
 def run(ck):
     thorough = ck.tier == "thorough"
     vlib.build_impl()
@@ -134,6 +160,8 @@ def run(ck):
         if d:
             corr_broken.append({"line": d[0], "op": nodedb.short(lines[d[0]], 160) if d[0] < len(lines) else None,
                                 "model": nodedb.short(d[1], 160), "impl": nodedb.short(d[2], 160), "script": [nodedb.short(x, 200) for x in lines[: d[0] + 1]][-25:]})
+    if not ck.violations:
+        legacy_histories(ck, exe, dist)
     if (corr_broken or broken) and not ck.violations:
         ck.violation({"broken_obligations": broken, "broken_correspondence": corr_broken[:2],
                       "note": "the session model and the implementation differ (or an obligation no longer checks) although every "
